@@ -39,7 +39,12 @@ def game_outcomes(ctx, m, extra_opaque=()):
     opaque = {n for n in facts.fns if n.startswith('chess::move_generator')} | {AP, SAVE, ENUM, GAME + '::select_alpha_beta_best_move',
                                                                                  GAME + '::select_waterfall_book_then_alpha_beta_best_move'} | set(extra_opaque)
     ctx.touch(name)
-    return name, Engine(facts, opaque=opaque).run(name)
+    try:
+        return name, Engine(facts, opaque=opaque).run(name)
+    except PathLimit:
+        # the path grew helpers outside the game module (evaluation, generation): keep those as opaque calls - what matters here is which
+        # board / history mutators a path performs, and those stay visible as events
+        return name, Engine(facts, opaque=opaque, inline_filter=lambda n, c: n.startswith('chess::game::')).run(name)
 
 
 def r1_reject_purity(ctx):
